@@ -369,6 +369,7 @@ pub struct EncPlanItem {
     pub k: usize,
     pub runs: Vec<usize>,
     pub small: bool,
+    pub mixed: bool,
 }
 
 pub const QUICK_ENCODERS: [&str; 13] = ["Big5", "EUC-KR", "Shift_JIS", "EUC-JP", "gb18030", "GBK", "ISO-2022-JP", "UTF-8", "UTF-16LE", "x-user-defined", "windows-1252", "windows-874", "IBM866"];
@@ -377,7 +378,7 @@ pub fn enc_plan(prop: &str, tier: Tier) -> Vec<EncPlanItem> {
     let q = tier == Tier::Quick;
     let encs: Vec<&'static str> = if q { QUICK_ENCODERS.to_vec() } else { spec::NAMES.to_vec() };
     let mut v = vec![];
-    let it = |enc: &'static str, source: Source, sink: ESink, repl: bool, k: usize, runs: &[usize], small: bool| EncPlanItem { enc, source, sink, repl, k, runs: runs.to_vec(), small };
+    let it = |enc: &'static str, source: Source, sink: ESink, repl: bool, k: usize, runs: &[usize], small: bool| EncPlanItem { enc, source, sink, repl, k, runs: runs.to_vec(), small, mixed: false };
     for &e in &encs {
         let _jp = e == "ISO-2022-JP";
         match prop {
@@ -390,6 +391,13 @@ pub fn enc_plan(prop: &str, tier: Tier) -> Vec<EncPlanItem> {
                         if !q {
                             v.push(it(e, source, ESink::Slice, repl, 3, &[], true));
                         }
+                    }
+                }
+                if prop == "C04" || prop == "C12" || !q {
+                    for source in [Source::Utf8, Source::Utf16] {
+                        let mut m = it(e, source, ESink::Slice, false, 2, &[], true);
+                        m.mixed = true;
+                        v.push(m);
                     }
                 }
                 if prop == "C04" || !q {
@@ -407,6 +415,13 @@ pub fn enc_plan(prop: &str, tier: Tier) -> Vec<EncPlanItem> {
                 v.push(it(e, Source::Utf8, ESink::Vec, true, 2, &[16], true));
             }
             "C07" | "C08" | "C09" => {
+                if prop != "C09" {
+                    for source in [Source::Utf8, Source::Utf16] {
+                        let mut m = it(e, source, ESink::Slice, false, 2, &[], true);
+                        m.mixed = true;
+                        v.push(m);
+                    }
+                }
                 for source in [Source::Utf8, Source::Utf16] {
                     for repl in [false, true] {
                         if prop == "C09" && !repl {
@@ -468,7 +483,7 @@ pub fn run_enc_plan(items: Vec<EncPlanItem>, or: &EOracles, tag_chunk: &'static 
         .map(|it| {
             let e = spec::enc(it.enc);
             let syms = alphabet::enc_syms(&e, it.source == Source::Utf16, &it.runs, it.small);
-            ECfg { enc: e, source: it.source, sink: it.sink, repl: it.repl, syms, k: it.k, or: or.clone(), threads: 2, max_states: 6_000_000, tag_chunk, tag_single }
+            ECfg { enc: e, source: it.source, sink: it.sink, repl: it.repl, syms, k: it.k, or: or.clone(), threads: 2, max_states: 6_000_000, tag_chunk, tag_single, mixed: it.mixed }
         })
         .collect();
     let outs = par_map(&cfgs, 8, |c| xenc::explore(c));
@@ -501,9 +516,9 @@ pub fn c17_plans(tier: Tier) -> (Vec<DecPlanItem>, Vec<EncPlanItem>) {
     for e in eenc {
         for source in [Source::Utf8, Source::Utf16] {
             for repl in [false, true] {
-                en.push(EncPlanItem { enc: e, source, sink: ESink::Slice, repl, k: 2, runs: vec![16, 48, 49], small: true });
+                en.push(EncPlanItem { enc: e, source, sink: ESink::Slice, repl, k: 2, runs: vec![16, 48, 49], small: true, mixed: false });
                 if !q {
-                    en.push(EncPlanItem { enc: e, source, sink: ESink::Slice, repl, k: 1, runs: vec![31, 63, 64], small: false });
+                    en.push(EncPlanItem { enc: e, source, sink: ESink::Slice, repl, k: 1, runs: vec![31, 63, 64], small: false, mixed: false });
                 }
             }
         }
